@@ -15,7 +15,13 @@ for m in m1 m2 m3; do
   RACE=""; grep -qi "race" "$S/notes.md" 2>/dev/null && [ "$P" = C07 ] && RACE="-race"
   if (cd "$W" && git apply "$S/patch.diff"); then res+=("apply=ok"); else res+=("apply=FAIL"); echo "${res[@]}" > "$D/confirm.txt"; continue; fi
   if (cd "$W" && go build ./... >/dev/null 2>&1); then res+=("build=ok"); else res+=("build=FAIL"); fi
-  if (cd "$W" && go test -vet=off -count=1 ./... >/tmp/w6out/$P/$m.suite.log 2>&1); then res+=("suite=pass"); else res+=("suite=FAIL"); fi
+  suite=FAIL
+  for try in 1 2 3; do
+    if (cd "$W" && go test -vet=off -count=1 ./... >/tmp/w6out/$P/$m.suite.log 2>&1); then suite=pass; break; fi
+    # the wall-clock test TestContextDeadline flakes on a loaded machine: retry only when it is the only failure
+    [ "$(grep -c -- '^--- FAIL' /tmp/w6out/$P/$m.suite.log)" = 1 ] && grep -q -- '--- FAIL: TestContextDeadline' /tmp/w6out/$P/$m.suite.log || break
+  done
+  res+=("suite=$suite")
   cp "$S/zz_demo_test.go" "$W/zz_demo_test.go"
   if (cd "$W" && go test -vet=off -count=1 $RACE -run ZZDemo . >/tmp/w6out/$P/$m.demo_with.log 2>&1); then res+=("demo_with_change=PASS(unexpected)"); else res+=("demo_with_change=fail(expected)"); fi
   rm -f "$W/zz_demo_test.go"; git -C "$W" checkout -q -- . && git -C "$W" clean -fdq
